@@ -125,7 +125,12 @@ class Prop:
         for c in self.waiting("C"):
             l = self.ls[c]
             e = self.pop(evs, c)
-            if e != txt:
+            if e == "deadcall":
+                # the value was "delivered" by calling a callable that no longer exists (connect() of an lvalue callable which
+                # its owner has destroyed since): the connected callback did not get the value
+                self.msgs.append("dead-callback: %s was delivered to connected callback C%d by calling a callable that had been "
+                                 "destroyed (the connection does not own its callback)" % (txt, c))
+            elif e != txt:
                 self.msgs.append("missed: connected callback C%d was not called with %s (observed %s)" % (c, txt, e))
             else:
                 self.deliveries += 1
@@ -228,11 +233,17 @@ class Prop:
             for sc in w[1:]:
                 i = self.new_listener(sc)
                 self.await_emitter(i, evs)
-        elif k == "connect":
+        elif k in ("connect", "connectl"):
+            # connectl: the callable is an lvalue which the caller destroys as soon as connect() has returned; the callback is
+            # connected (and waiting) all the same: it is released when it answers false or at disconnection, not before
             if self.alive:
                 i = self.next_id
                 self.next_id += 1
                 self.ls[i] = {"kind": "C", "left": int(w[1]), "state": "waiting"}
+                if evs.get(i) and evs[i][0] == "free":
+                    evs[i].pop(0)
+                    self.msgs.append("callback-release: C%d was released while it is connected and waiting (the connection does "
+                                     "not own its callback: it went away with the caller's object)" % i)
         elif k == "emit":
             if self.alive:
                 m = re.match(r"rel=(\d+)$", head[1]) if len(head) > 1 else None
@@ -307,7 +318,7 @@ def run_prop(case, out):
     for opl, line in zip(case["lines"][1:], out):
         w = opl.split()
         head, evs, kinds = parse_line(line)
-        if head and head[0] == "bad-op" and w[0] not in ("emit", "connect", "newcol", "newsig", "drop", "wake", "flush", "assign") and not p.hook_pending:
+        if head and head[0] == "bad-op" and w[0] not in ("emit", "connect", "connectl", "newcol", "newsig", "drop", "wake", "flush", "assign") and not p.hook_pending:
             p.msgs.append("harness: unexpected bad-op for %r" % opl)
         p.op(w, head, evs)
         for i, kd in kinds.items():
@@ -368,7 +379,8 @@ class SigSuite(Suite):
             st["nlist"] += 1
 
         def connect():
-            lines.append("connect %d" % rng.choice([0, 0, 1, 2, 3, 5, 100]))
+            # a third of the callbacks are passed as an lvalue functor which the caller destroys right after connect()
+            lines.append("%s %d" % ("connectl" if rng.random() < 0.33 else "connect", rng.choice([0, 0, 1, 2, 3, 5, 100])))
             if not st["dead"]:
                 st["nlist"] += 1
 
